@@ -29,6 +29,8 @@ type Env struct {
 	frame      *frame // for invariants: resolve locals
 	depth      int
 	entryAlloc Term
+	paramNames map[string]bool
+	inLoopInv  bool
 	goal       bool
 	extraCands map[string][]Term
 	siteBlock  *ssa.BasicBlock
@@ -62,9 +64,11 @@ func (ex *Exec) frameEnv(f *frame, st, old *State) *Env {
 	} else if fn.Parent() != nil && fn.Parent().Pkg != nil {
 		env.pkg = fn.Parent().Pkg.Pkg
 	}
+	env.paramNames = map[string]bool{}
 	for i, p := range fn.Params {
 		if i < len(f.params) {
 			env.vars[p.Name()] = tv{t: f.params[i], typ: p.Type()}
+			env.paramNames[p.Name()] = true
 		}
 	}
 	for _, fv := range fn.FreeVars {
@@ -305,6 +309,32 @@ func (env *Env) ident(x *ast.Ident) (tv, error) {
 		return tv{t: tFalse}, nil
 	case "nil":
 		return tv{t: Term{"NIL", "NIL"}}, nil
+	}
+	// inside the body (site assertions, loop invariants) a name denotes the CURRENT value of the variable in scope,
+	// which may be a reassigned parameter or a shadowing local; at entry / exit it denotes the parameter's entry value
+	if env.frame != nil && env.siteBlock != nil {
+		if _, isParam := env.paramNames[x.Name]; isParam {
+			if v, isAddr, ok := env.localAtSite(x.Name); ok {
+				f := env.frame
+				if isAddr {
+					l := f.locOf(v)
+					return tv{t: ex.load(env.st, l), typ: l.typ}, nil
+				}
+				return tv{t: f.val(v), typ: v.Type()}, nil
+			}
+		}
+	}
+	if env.frame != nil && env.inLoopInv {
+		if _, isParam := env.paramNames[x.Name]; isParam {
+			if lv := env.lookupLocal(x.Name); lv != nil {
+				f := env.frame
+				if al, ok := lv.(*ssa.Alloc); ok {
+					l := f.locOf(al)
+					return tv{t: ex.load(env.st, l), typ: l.typ}, nil
+				}
+				return tv{t: f.vals[lv], typ: lv.Type()}, nil
+			}
+		}
 	}
 	if v, ok := env.vars[x.Name]; ok {
 		return v, nil
@@ -736,7 +766,10 @@ func (env *Env) call(x *ast.CallExpr) (tv, error) {
 		}
 		return tv{t: store(m.t, k.t, v.t), typ: m.typ}, nil
 	case "old":
-		return env.with(env.old).trans(x.Args[0])
+		e2 := env.with(env.old)
+		e2.siteBlock = nil // parameter names denote their entry values inside old(...)
+		e2.inLoopInv = false
+		return e2.trans(x.Args[0])
 	case "implies":
 		a, err := argv(0)
 		if err != nil {
@@ -908,6 +941,16 @@ func (env *Env) call(x *ast.CallExpr) (tv, error) {
 		arr := ex.get(env.st, compElem(el), arraySort(SInt, arraySort(SInt, SInt)))
 		fn := sc.declareFun("strOfBytes", []string{arraySort(SInt, SInt), SInt, SInt}, SStr)
 		return tv{t: app(SStr, fn, sel(arr, app(SInt, "sarr", v.t)), app(SInt, "soff", v.t), app(SInt, "slen", v.t)), typ: types.Typ[types.String]}, nil
+	case "arr":
+		// arr(s): the backing array of a slice (for fresh(arr(s)))
+		v, err := argv(0)
+		if err != nil {
+			return tv{}, err
+		}
+		if v.t.Sort != SSlice {
+			return tv{}, env.errf(x, "arr of non-slice")
+		}
+		return tv{t: app(SInt, "sarr", v.t)}, nil
 	case "dyncalls":
 		return tv{t: ex.get(env.st, "G:dyncalls", SInt)}, nil
 	case "clock":
